@@ -41,6 +41,12 @@ CHECKS["C03"] = dict(
   note="Trusted: symgo executor (buffered channel/select model), z3. Bounds: <=2 items (quick) / 3 (thorough) per response, one cut (4 sampled positions quick, 0..12 thorough), 2 rounds inductive + 3-round history. Outside: intermediate DONEs without MORE, zero-length responses (header-only packets, see C02), consumer truly concurrent with the reader (C13).",
   ref="DESIGN.md §4 C03")
 
+CHECKS["C11"] = dict(
+  technique="symbolic execution of go/ssa with SMT (z3): responses with symbolic EED status bytes, environment-change types and packet sizes, recording hooks, symbolic callback failure point",
+  text="Bounded symbolic model checking of the real handleSpecialPackage, callEEDHooks/callEnvChangeHooks, RegisterEEDHooks/RegisterEnvChangeHooks, EEDError.Add/Is, NextPackageUntil and the EED/ENVCHANGE readers. Responses of up to 2 (quick) / 3 (thorough) items (EED with any status byte, ENVCHANGE with 0..2 members of any type incl. PACKSIZE with a symbolic size, RETURNSTATUS) plus final DONE, delivered in one or two packets, with 0..2 recording hooks of each kind and one hook registered between two responses. Decided: every hook sees every non-informational message and every member exactly once, in order, before the message or any later package is queued; informational messages and environment changes never reach the consumer; packet size applied; a failing callback's error matches the callback's error and carries the messages received so far in order.",
+  note="Trusted: symgo executor, z3. Bounds: as stated; one cut (sampled positions in quick). Outside: hooks that re-enter the channel; messages received after the failing callback (the implementation tries to append them but the nil-callback path returns a bare io.EOF; not demanded by the property).",
+  ref="DESIGN.md §4 C11")
+
 NOT_APPLICABLE = {
 }
 
